@@ -129,7 +129,7 @@ const c08Rule = "rapid draws program trees: EQUs at the top, top-level instructi
 
 func TestC08(t *testing.T) {
 	hx.Run(t, hx.Prop[forCase]{
-		ID: "C08", Sub: "for", Rule: c08Rule, Checks: hx.Scale(6000, 500000),
+		ID: "C08", Sub: "for", Rule: c08Rule, Checks: hx.Scale(6000, 4000000),
 		Gen: genForCase, Judge: judgeForCase,
 	})
 }
